@@ -219,6 +219,7 @@ type World struct {
 	tamperCount int
 	creator     *Instance
 	creates     int
+	recomputes  int
 }
 
 type clockState struct {
